@@ -128,7 +128,7 @@ def zst : Shape → Bool
   | .rem => true
   | .ulist _ => false
   | .umap _ _ => false
-  | .struct sized fields => zstLast (Fixed.sizeList sized == 0 && !sized.isEmpty) fields
+  | .struct _ fields => zstLast false fields
   | .enum _ ps => zstAny ps
   | .unit => false
   | .disc _ inner => zst inner
@@ -161,7 +161,7 @@ def okAux : (top inEnum : Bool) → Shape → Bool
   | _, _, .umap kw e => decide (0 < kw) && okAux false false e && !zst e
   | _, _, .struct sized fields =>
       Fixed.okList sized && (sized.isEmpty || decide (0 < Fixed.sizeList sized))
-        && !(sized.isEmpty && fields.isEmpty) && okFields fields
+        && !fields.isEmpty && okFields fields
   | _, _, .enum ds ps =>
       ds.length == ps.length && !ds.isEmpty && ds.all (fun d => decide (d < 256)) && ds.Nodup
         && okPayloads ps
